@@ -180,7 +180,8 @@ CHECKS = {
                   "alloc / mutate / clear / query (lookup, store sections) / drop with recyclable ids, plus two small object models (parameter `indent`, compiler object); "
                   "trace validation: real convert() runs recorded by wrappers installed from outside are replayed through the Lean machine section by section and judged by the "
                   "Lean discipline predicates; history exploration of the real code: every call after a generated history in a long-lived process is compared byte for byte "
-                  "with the same call alone in a fresh process, differences are shrunk and diagnosed",
+                  "with the same call alone in a fresh process, differences are shrunk and diagnosed; static tie: an AST inventory of mutable default arguments and of module/class-level state written by functions, "
+                  "regenerated on every run and decided equal (table lemma history_state_inventory_pinned) to the list the model accounts for",
         text="Kernel-checked for ALL histories, graph ids (recycled or not), keys, arguments, contents and for an arbitrary search function: (cache_fresh) if every (re)allocation and "
              "mutation of a graph is followed by a clear before the next query and no key is queried with two argument sets between clears, every value the table returns is the value "
              "recomputed from the graph as it is now, from ANY earlier state of the table, and no KeyError; (call_independent_of_memo) a call whose queries all follow a clear of the "
@@ -203,7 +204,7 @@ CHECKS = {
         technique="Lean 4 theorem about the same memo-table machine shared by any number of threads under EVERY interleaving of the atomic sections the real functions consist of "
                   "(lock;lookup;unlock - compute - lock;store;unlock - lock;clear;unlock, ids recyclable between threads); trace validation of recorded concurrent runs against the "
                   "threaded Lean machine; schedule exploration of the real code: a deterministic PRNG-driven scheduler built on a sys.settrace line hook (schedule = replayable switch "
-                  "list) and free running threads with a 1 microsecond switch interval, each run in a fresh process, every call compared with the same call alone; a compiler-only scenario (deeply nested inputs next to small ones at the interpreter's "
+                  "list) and free running threads with a 1 microsecond switch interval, each run in a fresh process, every call compared with the same call alone; cold-start interpreters whose first calls are made by 6-8 threads at once; a compiler-only scenario (deeply nested inputs next to small ones at the interpreter's "
                   "default recursion limit); a static inventory of every write to process-wide state in the source, decided equal (table lemma) to the list the thread model accounts for",
         text="Kernel-checked (interleave_safe) for any number of threads, all programs and ALL schedules: if every thread follows the clear protocol on the graphs it owns, every query "
              "returns the value recomputed from the thread's own graph as it is at that moment and no section raises KeyError - the unlocked compute and the store 'after the cache may "
